@@ -1,6 +1,4 @@
 // ===== prelude/sealed.rs — TRUSTED BASE for U-SEALED: sealed-journal recovery (watermarks, skip rule, re-enqueue) =====
-pub struct KeyspaceH { pub id: InternalKeyspaceId, pub tree: AnyTree, pub name: StrView }
-impl Clone for KeyspaceH { #[verifier::external_body] fn clone(&self) -> (r: KeyspaceH) ensures r == *self { unimplemented!() } }
 pub struct PathBuf { pub id: Ghost<int> }
 impl Clone for PathBuf { #[verifier::external_body] fn clone(&self) -> (r: PathBuf) ensures r.id == self.id { unimplemented!() } }
 impl PathBuf { #[verifier::external_body] pub fn display(&self) -> (r: u8) { unimplemented!() } }
@@ -40,6 +38,24 @@ pub open spec fn wm_pair(e: EvictionWatermark) -> (u64, u64) { (e.keyspace.id, e
 pub open spec fn wm_pairs(v: Seq<EvictionWatermark>) -> Seq<(u64, u64)> { Seq::new(v.len(), |i: int| wm_pair(v[i])) }
 pub open spec fn wm_ok(e: EvictionWatermark) -> bool { e.keyspace.tree.id@ == e.keyspace.id }
 impl HashMap<InternalKeyspaceId, EvictionWatermark> {
+    // R-HOF targets of `entry(k).and_modify(f).or_insert_with(g)`: lookup / overwrite / insert of one key. Iteration order of a
+    // HashMap is unspecified (an insert may even permute it); every contract over this map is insensitive to the order
+    #[verifier::external_body]
+    pub fn hof_get(&self, k: InternalKeyspaceId) -> (r: Option<EvictionWatermark>)
+        ensures r matches Some(v) ==> exists|i: int| 0 <= i < self.keys@.len() && #[trigger] self.keys@[i] == k && v == self.vals@[i],
+                r is None ==> forall|i: int| 0 <= i < self.keys@.len() ==> #[trigger] self.keys@[i] != k,
+    { unimplemented!() }
+    #[verifier::external_body]
+    pub fn hof_set(&mut self, k: InternalKeyspaceId, v: EvictionWatermark)
+        requires exists|i: int| 0 <= i < old(self).keys@.len() && #[trigger] old(self).keys@[i] == k,
+        ensures final(self).keys == old(self).keys, final(self).vals@.len() == old(self).vals@.len(),
+            forall|i: int| 0 <= i < old(self).keys@.len() ==> #[trigger] final(self).vals@[i] == (if old(self).keys@[i] == k { v } else { old(self).vals@[i] }),
+    { unimplemented!() }
+    #[verifier::external_body]
+    pub fn hof_insert(&mut self, k: InternalKeyspaceId, v: EvictionWatermark)
+        requires forall|i: int| 0 <= i < old(self).keys@.len() ==> #[trigger] old(self).keys@[i] != k,
+        ensures final(self).keys@ == old(self).keys@.push(k), final(self).vals@ == old(self).vals@.push(v),
+    { unimplemented!() }
     // HashMap::values: every value once
     pub fn values(&self) -> (r: &Vec<EvictionWatermark>) ensures r == &self.vals { &self.vals }
     // HashMap::into_values().collect(): the same values, in the same iteration order
